@@ -43,7 +43,7 @@ def main():
     try:
         demo_dst = os.path.join(wt, pkgdir, "seed_demo_test.go")
         shutil.copy(demo, demo_dst)
-        rc, out = sh("go test -vet=off -count=1 -run 'Seed|Demo' ./%s" % pkgdir, cwd=wt)
+        rc, out = sh("go test -tags verif -vet=off -count=1 -run 'Seed|Demo' ./%s" % pkgdir, cwd=wt)
         meta["demo_passes_on_clean_tree"] = rc == 0
         meta["ran"].append({"cmd": "clean tree: go test -run 'Seed|Demo' ./%s" % pkgdir, "rc": rc, "tail": out[-400:]})
         os.remove(demo_dst)
@@ -57,7 +57,7 @@ def main():
         meta["suite_passes_with_patch"] = rc == 0
         meta["ran"].append({"cmd": "patched tree: go test -vet=off -count=1 ./...", "rc": rc, "tail": out[-400:]})
         shutil.copy(demo, demo_dst)
-        rc, out = sh("go test -vet=off -count=1 -run 'Seed|Demo' ./%s" % pkgdir, cwd=wt)
+        rc, out = sh("go test -tags verif -vet=off -count=1 -run 'Seed|Demo' ./%s" % pkgdir, cwd=wt)
         meta["demo_fails_with_patch"] = rc != 0
         meta["ran"].append({"cmd": "patched tree: go test -run 'Seed|Demo' ./%s" % pkgdir, "rc": rc, "tail": out[-600:]})
     finally:
